@@ -94,6 +94,10 @@ def cases(tier, seed):
                 # a number, and a smooth everywhere-positive map given as a file
                 for noise, mode in itertools.product((NOISE_Q if tier == "quick" else NOISE_T)[:2], ["forced_pedestal", "files_positive"]):
                     yield "abc", dict(seq=[ALPHABET[k] for k in seq], noise=noise, rms=mode, docov=False)
+    # island rows (doislandflux / --island) under negation: every column of every island row is mirrored like a component
+    for seq in (["neg_point", "pos_ext"], ["neg_ext", "blend_nn"], ["blend_pp", "mixed"], ["tiny", "neg_point"], ["faint", "neg_ext"]):
+        for noise in ("none", "real0"):
+            yield "islandrows", dict(seq=seq, noise=noise, rms="files", docov=False)
     # sources of opposite sign close enough to share ONE island (islands are found on |signal-to-noise|)
     for sep in (3.0, 4.0, 5.0, 6.0):
         for neg_peak in (-0.8, -1.25):
@@ -161,6 +165,57 @@ def build_scene(case, seed):
         # a smoothly varying (+-25 %) noise map, exactly representable
         rms = np.round(SIGMA * (1.0 + 0.25 * np.sin(ii / 23.0 + 0.7) * np.cos(jj / 31.0)) * 65536) / 65536
     return hdr, img, bkg, rms
+
+
+ISLAND_COLS = [("island", 1), ("components", 1), ("background", -1), ("local_rms", 1), ("ra", 1), ("dec", 1), ("peak_flux", -1), ("int_flux", -1),
+               ("err_int_flux", 1), ("eta", 1), ("x_width", 1), ("y_width", 1), ("max_angular_size", 1), ("pa", 1), ("pixels", 1), ("area", 1),
+               ("beam_area", 1), ("flags", 1), ("ra_str", 1), ("dec_str", 1)]
+
+
+def ev_islandrows(case, ctx):
+    from AegeanTools.models import IslandSource
+    d = os.environ["VERIF_SCRATCH"]
+    hdr, img, bkg, rms = build_scene(case, ctx.seed)
+    sig = "islandrows:seq=%s,noise=%s" % ("+".join(case["seq"]), case["noise"])
+    rows = {}
+    files = []
+    try:
+        for sign in (1.0, -1.0):
+            f = os.path.join(d, "c13i_%s.fits" % ("p" if sign > 0 else "n"))
+            fb, fr = f.replace(".fits", "_bkg.fits"), f.replace(".fits", "_rms.fits")
+            files.extend([f, fb, fr])
+            scenes.write_image(f, hdr, sign * (img + bkg))
+            scenes.write_image(fb, hdr, sign * bkg)
+            scenes.write_image(fr, hdr, rms)
+            ctx.count("islandrows")
+            try:
+                out = scenes.finder().find_sources_in_image(f, cores=1, innerclip=5, outerclip=4, nopositive=False, nonegative=False, docov=False,
+                                                            doislandflux=True, bkgin=fb, rmsin=fr)
+            except Exception as e:
+                ctx.violation("finder with doislandflux raised %r (%s)" % (e, sig), "raise|" + sig)
+                return
+            rows[sign] = sorted([s for s in out if isinstance(s, IslandSource)], key=lambda s: s.island)
+    finally:
+        for f in files:
+            if os.path.exists(f):
+                os.remove(f)
+    P, N = rows[1.0], rows[-1.0]
+    ctx.outcome("islandrows_n=%d" % len(P))
+    if P:
+        ctx.nontrivial(sig)
+    if len(P) != len(N):
+        ctx.violation("%d island rows for the image, %d for the negated image (%s)" % (len(P), len(N), sig), "island_count|" + sig)
+        return
+    for a, b in zip(P, N):
+        for col, sgn in ISLAND_COLS:
+            x, y = getattr(a, col), getattr(b, col)
+            if isinstance(x, str):
+                okc = x == y
+            else:
+                okc = same(sgn * x, y) or abs(sgn * x - y) <= 1e-9 * max(abs(x), abs(y), 1e-300)
+            if not okc:
+                ctx.violation("island %d: column %s is %r for the image and %r for the negated image (expected %s) (%s)" % (
+                    a.island, col, x, y, "the negative" if sgn < 0 else "the same", sig), "island_%s|%s" % (col, sig))
 
 
 def run(path, kw, nopositive, nonegative, docov):
@@ -399,6 +454,8 @@ def ev_faint_companion(case, ctx):
 
 
 def evaluate(clause, case, ctx):
+    if clause == "islandrows":
+        return ev_islandrows(case, ctx)
     if clause == "mixed_island":
         return ev_mixed_island(case, ctx)
     if clause == "faint_companion":
